@@ -5,20 +5,80 @@ import json
 ALL = ["C%02d" % i for i in range(1, 21)]
 
 # id -> dict(engine, technique, level_text, level_note, design_ref)
-CLAIMED = {
- "C14": dict(engine="E1/E2 finite table + graph BFS", technique="exhaustive enumeration of a finite spec table against the implementation, plus BFS over the real object graph",
-   text="The space is finite (every (owner, property) pair of ES5 15.1-15.12 x 4 configurations) and is enumerated completely on every run; the reverse direction walks every object reachable from the global object. exhaustive=true.",
-   note="Trusted base: ref/shape (spec transcription), the runtime's own Object.getOwnPropertyDescriptor / typeof / Object.prototype.toString for observation.", ref="DESIGN.md §3 C14"),
+# id -> (engine, technique, level text, trusted base / assumptions)
+INFO = {
+ "C01": ("E1 choice-tree DFS + ref/js", "deviation-bounded exhaustive program enumeration against a reference ES5 interpreter, all five submission routes",
+   "Every program of the stated grammar families within the depth/deviation bounds is generated, run on the real interpreter on five routes and compared (host-call log, completion value, exception class) with an independent ES5 reference evaluator executed in lock-step.",
+   "Trusted base: ref/js (ES5.1 transcription); programs outside the family bounds are not covered."),
+ "C02": ("E1 full products over the discovered built-in surface, byte/token strings, recursion grid", "exhaustive enumeration of (function, receiver, arguments) triples, short sources and (limit, depth, call form) cells on the real API with crash/hang detection",
+   "The oracle is the property itself (API returns, no Go panic, no worker death, watchdog silent); the enumerated spaces are complete within the stated arities/lengths.",
+   "Trusted base: harness recover/watchdog; inputs longer than the stated bounds are outside."),
+ "C03": ("E1 tree generator x renderings + ref/syntax", "exhaustive enumeration of syntax trees and their renderings, otto AST compared node-by-node with the generating tree",
+   "All operator pairs/triples, chains, for-headers, ASI matrix, literals within the bounds, each in minimal/full/deviating renderings; reference recogniser self-checks every rendering.",
+   "Trusted base: ref/syntax generator/renderer; trees deeper than the bounds are outside."),
+ "C04": ("E1 byte/token strings, corpus mutations + ref/syntax recogniser", "exhaustive enumeration of byte strings, token strings and 1-2 edit mutations; totality, reject-direction, span and Walk invariants",
+   "Every string within the length/alphabet bounds and every single-edit mutation of the corpus is parsed by the real parser; rejection compared with an independent ES5 recogniser; every node of every accepted tree checked.",
+   "Trusted base: ref/syntax recogniser; longer inputs are outside."),
+ "C05": ("E1 full products + ref/conv", "exhaustive product V x V x operators against an ES5 section 9/11 reference model, plus representation-differential",
+   "All pairs of a ~230/380-value boundary set under all 24 binary and 11 unary operators, all conversion observers, operand-order forms; compared by IEEE class / string / thrown class / coercion log.",
+   "Trusted base: ref/conv; values outside V are outside (dense numeric sweep is C06)."),
+ "C06": ("E1 lattice enumeration + ref/num (math/big)", "exhaustive enumeration of a structured double lattice and numeric-string grammars against exact big-rational arithmetic",
+   "Every lattice double x every format (toString/radix/toFixed/toExponential/toPrecision), every grammar string within bounds x every text->number entry point; verdict from exact arithmetic.",
+   "Trusted base: ref/num; doubles off the lattice and longer strings are outside."),
+ "C07": ("E2 explicit-state BFS over real objects + ref/objmodel", "explicit-state search to fixpoint of the property-slot machine (729 descriptors + ops), bounded BFS over chains, every transition replayed on the implementation",
+   "State = (model state, implementation observation); closed to fixpoint for one slot (unbounded history length), depth-bounded for chains; full observation compared after every transition.",
+   "Trusted base: ref/objmodel (ES5 8.10/8.12/15.2.3 transcription); more than 3 objects/names outside."),
+ "C08": ("E1 products + E2 histories + ref/objmodel arrays", "exhaustive enumeration of small arrays x methods x arguments, index canonicalisation and length tables, BFS over mutation histories",
+   "All arrays up to the length bound over a 5-element alphabet and variant receivers, all 15.4.4 methods with boundary position arguments and scripted callbacks; histories by BFS; compared with step-by-step 15.4 transcription.",
+   "Trusted base: ref/objmodel; longer arrays and receiver-mutating callbacks mostly outside."),
+ "C09": ("E1 full products + ref/str16", "exhaustive enumeration of UTF-16 strings up to length 3 x methods x position arguments against a code-unit reference",
+   "All strings over an 8-unit alphabet incl. astral pairs and lone surrogates, all search strings <=2, all boundary positions, all receivers.",
+   "Trusted base: ref/str16; longer strings outside."),
+ "C10": ("E1 pattern x subject products, E2 lastIndex protocol BFS + ref/regex", "exhaustive enumeration of small patterns x flags x subjects against a spec-style backtracking matcher; protocol BFS to fixpoint",
+   "All portable-subset patterns up to the size bound, all mutations with unsupported/malformed symbols, protocol histories closed over (lastIndex, writable).",
+   "Trusted base: ref/regex (15.10.2 transcription); larger patterns outside."),
+ "C11": ("E1 token strings, value products, mutations + ref/json", "exhaustive enumeration of JSON token strings, values x replacers x gaps, single-character mutations against a 15.12 transcription",
+   "Every token string up to the length bound, every depth-bounded value as text and as live value, all argument families; accept/reject, denotation, call logs and layout compared.",
+   "Trusted base: ref/json; deeper values/longer texts outside."),
+ "C12": ("E1 sweeps/deviation tuples + E2 setter histories + ref/date", "exhaustive day sweep of 400-year cycles, deviation-bounded field tuples, BFS over setter histories against integer 15.9.1 algebra",
+   "Every day of full Gregorian cycles, all tuples with <=2 deviating fields, setter histories by BFS with every transition replayed on a real Date.",
+   "Trusted base: ref/date; local time and non-ISO parse out of scope."),
+ "C13": ("E1 full products + ref/mathspec, ref/uri", "exhaustive products of boundary doubles for Math, all code-unit strings up to the bound for URI coding against 15.8.2 tables and 15.1.3 transcription",
+   "Special-case table everywhere plus exactness/monotonicity/inverse laws; every string over the unit alphabets for all six URI functions incl. round trips.",
+   "Trusted base: ref/mathspec, ref/uri; transcendental accuracy beyond stated tolerances outside."),
+ "C14": ("finite table + graph BFS", "exhaustive enumeration of a finite spec table against the implementation, plus BFS over the real object graph",
+   "The space is finite (every (owner, property) pair of ES5 15.1-15.12 x 4 configurations) and is enumerated completely on every run; the reverse direction walks every object reachable from the global object. exhaustive=true.",
+   "Trusted base: ref/shape (spec transcription), the runtime's own Object.getOwnPropertyDescriptor / typeof / Object.prototype.toString for observation."),
+ "C15": ("E1 full products", "exhaustive enumeration of boundary Go values of every kind and JS values through Set/Get/Export/To*/Call paths with identity and differential oracles",
+   "Every boundary value of every Go kind, depth-bounded containers, all call paths; round-trip identity / in-language twin comparison.",
+   "Trusted base: reflect.DeepEqual-based oracle and documented API promises."),
+ "C16": ("E1 conversion matrix + E2 container histories", "full product parameter types x JS arguments with an exact-or-loud oracle; BFS over container histories comparing script view and Go view after every step",
+   "34 parameter types x 3 positions x ~45 arguments; live-container histories by BFS with dedup on container contents.",
+   "Trusted base: reflect view of live containers; histories longer than the bound outside."),
+ "C17": ("E1 ingredient subsets x mutations + E5 heap walker", "exhaustive enumeration of heap-ingredient subsets x mutations x directions with a generic dump oracle, plus structural heap-sharing invariant by reflection",
+   "Every subset of <=2/3 of ~28 heap ingredients, every applicable mutation, both directions and copy-of-copy; heap graphs of original and copy intersect only in allow-listed immutables.",
+   "Trusted base: the JS dump program (runs on the implementation), heap walker allow-list."),
+ "C18": ("E3 step-hooked injection explorer", "exhaustive enumeration of every evaluation step of every wrapper-nesting program as injection point (interrupt, host panic, throw, stack limit) with monitors on the real run",
+   "Every (program, step) pair within the wrapper depth bound; delivery, identical re-panic, rest state, committed effects, reusability and limit thresholds checked.",
+   "Trusted base: verif step hook numbering; wall-clock interrupts from other goroutines are covered only via the same code path."),
+ "C19": ("E1 products (constructs x shapes x layouts)", "exhaustive enumeration of error constructs x nesting shapes x layouts; the generator is the oracle for class, message and positions",
+   "All constructs x shapes x layouts x entry modes within bounds; traces explained either by the convention or by a registered known finding.",
+   "Trusted base: the position convention derived from the pinned tests."),
+ "C20": ("E4 cooperative scheduler, preemption-bounded DFS + E5 + separate -race pass", "stateless DFS over all schedules of 2-3 runtimes with <= b preemptions at evaluation-step granularity; structural heap-sharing check; data-race half by the Go race detector on free-running executions of the same bodies",
+   "All schedules up to the preemption bound for every scenario/body pair; each runtime's log equals its solo log; shared Script/Program hash unchanged; heap intersection allow-listed. The 'no data race' half is decided by the race detector (happens-before analysis over executed accesses), not by enumeration.",
+   "Trusted base: step hook as scheduling points; race detector for unsynchronised accesses inside built-ins."),
 }
 
+BUILT = ["C05", "C11", "C12", "C13", "C14", "C19"]
 NOT_YET = "check not built yet in this session (machinery under construction); not claimed until it runs clean on the unchanged tree"
 
 def main():
     checks = []
     for pid in ALL:
-        if pid not in CLAIMED:
+        if pid not in BUILT:
             continue
-        c = CLAIMED[pid]
+        e = INFO[pid]
+        c = dict(engine=e[0], technique=e[1], text=e[2], note=e[3], ref="DESIGN.md §3 " + pid)
         checks.append({
             "property_id": pid,
             "quick_cmd": "./run.sh %s quick" % pid,
@@ -41,12 +101,12 @@ def main():
             "add_only": True,
         },
         "engines": [
-            {"name": "E1", "path": "mc/engine/choose.go", "serves_properties": sorted(CLAIMED), "kind_free_text": "choice-tree explorer: deviation-bounded stateless DFS and full-product enumeration, sharded over worker subprocesses"},
-            {"name": "supervisor", "path": "mc/engine/super.go", "serves_properties": sorted(CLAIMED), "kind_free_text": "worker subprocess pool with per-case watchdog and crash attribution; known-finding classification; evidence writer"},
+            {"name": "E1", "path": "mc/engine/choose.go", "serves_properties": sorted(BUILT), "kind_free_text": "choice-tree explorer: deviation-bounded stateless DFS and full-product enumeration, sharded over worker subprocesses"},
+            {"name": "supervisor", "path": "mc/engine/super.go", "serves_properties": sorted(BUILT), "kind_free_text": "worker subprocess pool with per-case watchdog and crash attribution; known-finding classification; evidence writer"},
         ],
         "checks": checks,
         "notes": "All checks are bounded exhaustive explorations driving the real otto code (see DESIGN.md). Known findings: findings/known.json.",
-        "not_applicable": [{"property_id": p, "reason": NOT_YET} for p in ALL if p not in CLAIMED],
+        "not_applicable": [{"property_id": p, "reason": NOT_YET} for p in ALL if p not in BUILT],
     }
     json.dump(m, open("/verif/MANIFEST.json", "w"), indent=1)
     print("wrote MANIFEST.json with", len(checks), "checks")
